@@ -149,6 +149,8 @@ func externalWrites(name string, nargs int) []int {
 		return []int{1}
 	case "crypto/subtle.XORBytes":
 		return []int{0}
+	case "invoke (crypto/cipher.AEAD).Open", "invoke (crypto/cipher.AEAD).Seal":
+		return []int{1} // dst: the result is appended to it, and overwritten from dst[len:] on
 	}
 	if strings.Contains(name, "encoding/binary.") && strings.Contains(name, ".PutUint") {
 		return []int{nargs - 2}
